@@ -4,4 +4,5 @@ import CssVerif.Props.C01
 #print axioms CssVerif.C01.fetcher_contained
 #print axioms CssVerif.C01.tokenizer_patterns_unambiguous
 #print axioms CssVerif.C01.profile_patterns
+#print axioms CssVerif.C01.hexcolor_pattern_ends_strictly
 #print axioms CssVerif.C01.snapshot_patterns
